@@ -106,6 +106,17 @@ CHECKS = {
          "list, directory, glob and merge() in flat/hive/drill shapes, >=3 files taking the concurrent-footer path.",
          "Trusted: Lean kernel + standard axioms. Outside the model: fsspec listing order, footer fetching, per-file decode.",
          "Lean 4 proof + exhaustive correspondence of analyse_paths + concatenation oracle", "§6 C14"),
+ "C10": ("Lean 4: (a) table theorems, decided by the kernel over tables REGENERATED from parquet.thrift, cencoding.pyx (specs/children, field "
+         "loop bound, list-header switch, buffer heuristic) and every Thrift construction site of writer/util/api: field ids agree with "
+         "the IDL and are complete, nested struct names agree, the only fields the writer loop never reaches are the two with id 14, every "
+         "construction site carries the 32-bit markers the IDL implies (one never-serialised local excepted), the only narrow integer "
+         "fields are IntType.bitWidth and RowGroup.ordinal; (b) a specification-level compact-protocol encoder/decoder and a "
+         "code-shaped model of write_thrift/read_thrift, compared three ways (spec / model / compiled extension) on IDL-generated "
+         "values incl. list lengths 0/1/14/15/16 and megabyte strings, via the API and via independently encoded bytes.",
+         "Trusted: Lean kernel + standard axioms (decide +kernel, no native_decide); the three table translators (regex/ast extraction, "
+         "they fail loudly on an unknown shape); gcc build of the current cencoding.c. Round-trip of the model itself is tied by "
+         "correspondence, not yet proved in Lean (see DESIGN).",
+         "Lean 4 kernel-decided table obligations over regenerated tables + 3-way correspondence", "§6 C10"),
 }
 
 def main():
